@@ -9,6 +9,8 @@ extern "C" {
 /* ---- allocation tracker (link-time --wrap of malloc/calloc/realloc/free) ----
  * Only blocks (re)allocated while a shim_* library call is in progress are tracked. */
 void trk_set_inplace(int on); /* 1: realloc leaves a shrinking block (and one growing back within its room) where it is */
+void trk_fail_shrinks(int n);          /* the next n realloc calls that would make a tracked block smaller fail (NULL, block untouched) */
+uint64_t trk_failed_shrinks(void);     /* how many did */
 void trk_reset(void);                  /* forget everything (start of a case) */
 size_t trk_live_count(void);           /* number of live tracked blocks */
 size_t trk_live_bytes(void);           /* sum of requested sizes of live tracked blocks */
